@@ -48,6 +48,8 @@ def predict(kinds):
     errs = []
     for i, k in enumerate(toks):
         c = first_class(toks, i + 1) if (state, k) in USES_LA else 'N'
+        if state is None:
+            break
         to, events, errors = T[(state, k, c)]
         for e in events:
             ev.append(('b', e[1], i + 1, k) if e[0] == 'b' else e)
@@ -65,6 +67,9 @@ def check_run(kinds, acc, S_before_eof=None, dead_at=None, trace_states=True):
     acc.n += 1
     acc.validated += 1
     case = {'kind': 'kinds', 'kinds': list(kinds)}
+    if r.get('crash'):
+        acc.violation('parse-loop-crash', case, 'Parser.parse raised ' + r['crash'])
+        return
     spec_ok = SPEC.accepts(kinds)
     if spec_ok:
         acc.nontrivial += 1
@@ -156,6 +161,8 @@ def exact_product(acc):
             classes = 'SEN' if (k == 'TagLine' and (s, k) in USES_LA) else 'N'
             for c in classes:
                 to, events, errors = T[(s, k, c)]
+                if to is None:
+                    continue          # the transition crashes: reported by the table extraction
                 S2 = spec.step(S, k)
                 trans += 1
                 word = seen[node] + ((k, c),)
@@ -403,6 +410,8 @@ def _observe(word, n):
         return ('snap',) + out[0]
     except ParserError:
         pass
+    except Exception:  # noqa: BLE001 - a crashing transition is reported by the table extraction
+        pass
     return ('over',)
 
 
@@ -500,6 +509,10 @@ def run(ctx):
                        'static extraction of sibling tables is by line regex over generated code of a fixed shape; it must yield 42 states / 334 alternatives or the check stops']
     if INFO['problems']:
         for p in INFO['problems'][:5]:
+            if p[0] == 'crash':
+                acc.violation('transition-crash', {'kind': 'table-extraction', 'state': p[1], 'on': p[2]},
+                              'Parser.match_token(state %s, %s) raised %s' % (p[1], p[2], p[5]))
+                continue
             acc.violation('lookahead-contract', {'kind': 'table-extraction', 'detail': repr(p)},
                           'Parser.match_token: look-ahead does not re-queue exactly what it read / outcome depends on more than the class of the first non-skipped line')
     reach, strans = SPEC.reachable()
